@@ -265,7 +265,7 @@ def _shape_of(pc):
         return "enum"
     if re.search(r"discr\([^=]*\.style\)=Unit\b", s):
         return "unit struct"
-    if "Eq(len(" in s and "1_usize)=True" in s:
+    if re.search(r"len\([^=]*fields\)=1\b", s):
         return "newtype struct"
     if "is_newtype(" in s and "=True" in s.split("is_newtype(")[1][:60]:
         return "newtype struct"
